@@ -30,6 +30,8 @@ pub struct GenCfg {
     /// 0 stepper, 1 default, 2 stw, 3 random
     pub pacing: u8,
     pub faults: bool,
+    /// pacing workloads dominated by barrier storms (credit accounting of the barriers)
+    pub storm: bool,
 }
 
 pub struct Gen {
@@ -413,7 +415,8 @@ impl Gen {
     fn initial_body(&mut self, ex: &mut Exec, a: u8) -> Vec<MOp> {
         let mut sc = self.scratch(ex, a);
         let mut body = Vec::new();
-        let n = 1 + self.rng.below(4);
+        // now and then the arena starts out EMPTY (no allocation at all)
+        let n = if self.rng.chance(1, 6) { 0 } else { 1 + self.rng.below(4) };
         for _ in 0..n {
             let al = self.gen_alloc(&mut sc);
             let MOp::Alloc { id, .. } = al else { unreachable!() };
@@ -443,8 +446,26 @@ impl Gen {
             }
             return Op::SetPacing { a, p };
         }
-        let burst = [1u32, 2, 8, 8, 30, 64, 150, 400][self.rng.below(8)];
-        match self.rng.weighted(&[22, 18, 6, 4, 30, 8, 8, 5, 3, 2, 1]) {
+        // (storm mode keeps the heap small so that a stalled cycle crosses the bound within one history)
+        let burst = if self.cfg.storm { [1u32, 1, 2, 3, 4, 6][self.rng.below(6)] } else { [1u32, 2, 8, 8, 30, 64, 150, 400][self.rng.below(8)] };
+        if self.rng.chance(if self.cfg.storm { 5 } else { 1 }, 8) {
+            // barrier storm: one allocation, then several explicit barriers (all six forms, strong
+            // and weak, with the fresh white object as child) on objects that are probably black
+            let all: Vec<Id> = ex.w.reachable(a).iter().copied().collect();
+            let reach: Vec<Id> = all.into_iter().filter(|i| matches!(ex.w.objs[i].kind, Kind::Node | Kind::RCell)).collect();
+            if !reach.is_empty() {
+                let id = self.take_ids(ex, 1);
+                let mut body = vec![MOp::Alloc { id, kind: Kind::RCell, n: 0, init: vec![] }];
+                let mode = self.rng.below(6) as u8;
+                for _ in 0..(3 + self.rng.below(6)) {
+                    let p = reach[self.rng.below(reach.len())];
+                    body.push(MOp::BarrierOnly { p, c: Some(id), mode: if self.rng.chance(3, 4) { mode } else { self.rng.below(6) as u8 } });
+                }
+                return Op::Cb { a, kind: CbKind::Mutate, body };
+            }
+        }
+        let w: [u32; 11] = if self.cfg.storm { [3, 6, 1, 1, 70, 8, 4, 3, 2, 1, 0] } else { [22, 18, 6, 4, 30, 8, 8, 5, 3, 2, 1] };
+        match self.rng.weighted(&w) {
             0 => {
                 let first_id = self.take_ids(ex, burst);
                 Op::Cb { a, kind: CbKind::Mutate, body: vec![MOp::Burst { n: burst, kind: if self.rng.chance(1, 2) { Kind::Leaf } else { Kind::RCell }, first_id }] }
